@@ -19,6 +19,9 @@ func Check(b *Bundle) []string {
 	for _, f := range b.Files {
 		for _, t := range f.Templates {
 			c := &checker{b: b, f: f, t: t, used: map[string]bool{}}
+			if t.HeaderStyle && len(t.SoydocExtra) > 0 {
+				c.errf("both soydoc and header params")
+			}
 			for _, p := range t.Params {
 				c.params = append(c.params, p.Name)
 			}
